@@ -110,7 +110,7 @@ PROPS = {
         "level": "exploration",
         "quick": {"shards": 6},
         "thorough": {"shards": 18},
-        "rule": ("address lists: every sequence of length <=3 (quick) / <=4 (thorough) over a 21-entry pool covering "
+        "rule": ("address lists: every sequence of length <=3 (quick) / <=4 (thorough) over a 23-entry pool covering "
                  "class (ULA/GUA/link-local) x stability source (none, each flag, EUI-64) x exclusion flag, plus IPv4; "
                  "rapid-generated lists up to 30 with static server lists; oracle = total-order specification "
                  "(minimum of (not stable, class rank, address) over eligible addresses) + permutation invariance + "
